@@ -221,7 +221,28 @@ func runC16(c *Case) {
 		case x < 70:
 			setTime(w)
 			q := genStmt(w)
+			faulted := false
+			if r.Intn(12) == 0 {
+				// one PUT of this commit fails: the statement must fail, and whatever is
+				// committed later must still be complete (nodes marked stored that never were)
+				kc := "/node/"
+				if r.Intn(3) == 0 {
+					kc = "/root/current/"
+				}
+				st.Client(w.client).AddFault(fs3.Fault{Op: fs3.OpPut, KeyContain: kc, Action: "error"})
+				faulted = true
+				c.Count("commit_faults_injected", 1)
+			}
 			err := run(w, q)
+			if faulted {
+				st.Client(w.client).ClearFaults()
+				prog = append(prog, "   (one PUT failed during that statement)")
+				if err != nil && errClass(err) == "error" {
+					c.Count("commits_failed_under_fault", 1)
+					// the failed statement's effect must be gone from the writer's own view
+					continue
+				}
+			}
 			cls := errClass(err)
 			if cls == "error" {
 				c.Violate(sigp+"statement-error", "statement failed: "+q+": "+err.Error(), prog)
